@@ -3,9 +3,12 @@
  * One case = one routine group on one generated matrix:
  *   inv   MatrixInversion + MatrixLUInversion : A*X = I, X*A = I, X = LU-oracle inverse           (n 1..12, kappa <= 1e6)
  *   det   MatrixDeterminant                   : = pivoted-LU oracle = cofactor oracle, det(AB) = det(A)det(B)  (n 1..8)
- *   lse   SolveLSE on [A|b]                   : x = LU-oracle solution, residual                   (n 1..12)
+ *   lse   SolveLSE on [A|b]                   : x = LU-oracle solution, residual, same answer into a reused output vector (n 1..12,
+ *                                               kappa <= 1e3, no elimination intermediate inside the documented 1e-4 zero window)
  *   ols   OrdinaryLeastSquares                : beta = Householder-QR oracle                      (m x n, m >= n)
- *   pinv  MatrixMoorePenrosePseudoinverse     : four Penrose conditions, = QR-oracle pseudo-inverse (sigma_min >= 0.2, kappa <= 50)
+ *   pinv  MatrixMoorePenrosePseudoinverse     : four Penrose conditions, = QR-oracle pseudo-inverse (full column rank, kappa <= 1e3:
+ *                                               the routine inverts the normal matrix A'A, kappa^2 <= 1e6; repeated, close and
+ *                                               separated singular values)
  *   eig   EVectEval on symmetric input        : A v = lambda v per returned pair, spectrum = Jacobi oracle
  *   svd   SVDlapack, every shape 1..12 x 1..12: s >= 0 descending = Jacobi oracle, U S V^T = A, orthonormal factors, economy shapes
  * Families: prescribed singular values, permutation, zero leading entries / zero leading minors, triangular, SPD, diagonal
@@ -17,13 +20,13 @@
 #define EPS 2.220446049250313e-16
 
 /* head-room constants: >= 100 x the largest normalised deviation seen on the unchanged tree (see evidence maxima) */
-#define C_INV_RES  5000.0    /* |A X - I|, |X A - I|            in units of kappa n eps            */
+#define C_INV_RES  5000.0    /* |A X - I|, |X A - I|            in units of kappa n eps (Gauss-Jordan A X - I: kappa^2 n eps) */
 #define C_INV_FWD   200.0    /* |X - X*|/|X*|                   in units of kappa n eps            */
 #define C_DET       200.0    /* |det - det*|                    in units of n eps perm(|A|)        */
 #define C_LSE_FWD   400.0    /* |x - x*|/|x*|                   in units of kappa n eps            */
 #define C_LSE_RES   400.0    /* |A x - b|                       in units of n eps (|A||x| + |b|)   */
 #define C_OLS      1000.0    /* |beta - beta*|                  in units of kappa^2 n eps (|beta*| + |y|/smax) */
-#define C_PINV     2000.0    /* Penrose residuals               in units of kappa^4 n eps          */
+#define C_PINV     2000.0    /* Penrose residuals, |G - G*|/|G*| in units of kappa^2 n eps (normal equations) */
 #define C_EIG_RES   400.0    /* |A v - lambda v|/|v|            in units of n eps |A|_F            */
 #define C_EIG_VAL   400.0    /* |lambda - lambda*|              in units of n eps |A|_F            */
 #define C_SVD      2000.0    /* |U S V^T - A|, |s - s*|, |U^T U - I| in units of max(m,n) eps smax */
@@ -559,7 +562,6 @@ static void group_pinv(vh_ctx *c)
   for (i = 0; i < n; i++) for (j = 0; j < n; j++) { double d = (double)fabsl(LM(GA, i, j) - LM(GA, j, i)); if (!(d <= p4)) p4 = d; }
   fwd = (double)(ldm_maxdiff(G, Go) / gmax);
   tol = (double)(kappa * kappa) * (double)n * EPS;
-  if (getenv("C12_PINV_TRACE")) fprintf(stderr, "PINV %g %zu %g %g %g %g %g\n", (double)kappa, n, p1, p2, p3, p4, fwd);
   {
     double worst = p1; char nm[64];
     worst = fmax(fmax(worst, p2), fmax(fmax(p3, p4), fwd));
